@@ -15,6 +15,7 @@ RULE = ('self_sign / sign_req / derive_cert over generated key names (1..6 compo
 
 UTC = datetime.timezone.utc
 KINDS = ['ecdsa256', 'ecdsa256', 'ecdsa384', 'ecdsa521', 'rsa', 'ed25519']
+ISSUER_KINDS = KINDS + ['hmac', 'hmac']       # an issuing secret may also be an HMAC key (lengths on both sides of the hash block size)
 
 
 def fmt(dt):
@@ -27,7 +28,8 @@ STARTS = [datetime.datetime(1970, 1, 1, 0, 0, 0), datetime.datetime(1999, 12, 31
           datetime.datetime(2025, 1, 1, 0, 0, 0), datetime.datetime(2038, 1, 19, 3, 14, 7),
           datetime.datetime(2099, 12, 31, 23, 59, 59), datetime.datetime(1000, 1, 1, 0, 0, 0),
           datetime.datetime(9000, 6, 30, 1, 2, 3)]
-DURS = [0, 1, 59, 60, 3599, 86399, 86400, 86401, 365 * 86400, 366 * 86400, 20 * 365 * 86400 + 5 * 86400, 31 * 86400]
+DURS = [0, 1, 59, 60, 3599, 86399, 86400, 86401, 365 * 86400, 366 * 86400, 20 * 365 * 86400 + 5 * 86400, 31 * 86400,
+        -1, -86400, -366 * 86400]        # a period that ends before it starts is encoded as requested (an expired / never valid certificate)
 ISSUERS_TXT = ['self', 'iss', 'NA', 'a%20b', '%00', 'x.y-z_~', '32=kw', 'v=7', 'seg=300', 'a%2Fb', 'CA%3Aroot']
 
 
@@ -113,7 +115,7 @@ def run(ctx):
         os.environ['TZ'] = zones[(i // 7) % len(zones)]
         time.tzset()
         ctx.klass('local-time-zone-' + os.environ['TZ'])
-        ik = rng.choice(KINDS)
+        ik = rng.choice(ISSUER_KINDS)
         sk = rng.choice(KINDS)
         key_name = gen.simple_name(rng, 0, 4) + [rc.comp(8, b'KEY'), rc.comp(8, gen.rand_bytes(rng, rng.choice([1, 4, 8])))]
         if i >= n:
@@ -168,6 +170,10 @@ def run(ctx):
                 dur = rng.choice(DURS) if rng.random() < 0.7 else rng.randint(0, 20 * 366 * 86400)
                 if start.year > 9900:
                     dur = min(dur, 86400)
+                if dur < 0 and start.year < 1002:
+                    dur = -dur          # years below 1000 are outside the domain (no four-digit year)
+                if dur < 0:
+                    ctx.event('validity-ends-before-it-starts')
                 aware = rng.random() < 0.3
                 st = start.replace(tzinfo=UTC) if aware else start
                 if rng.random() < 0.5:
